@@ -1028,3 +1028,22 @@ package proxy
 //@   loop 1 invariant backoff >= 0 && backoff <= 2000000000
 //@   loop 2 invariant fresh(ids)
 //@   loop 3 invariant backoff >= 0 && backoff <= 2000000000
+
+// C08 / C09: one intra-proxy receiver per peer/shard pair. A receiver is stored only when none is registered for the
+// pair (checked under the same lock), and the goroutine that ran it removes the entry only while it is still its own
+// (defect D18, fixed: a receiver that was still connecting did not count, so every reconcile tick added another one).
+//@ extern (*intraProxyManager).ensurePeer@(*intraProxyManager).ensureStream(m2, ctx, peer)
+//@   trusted dials the peer (or reuses the connection) and returns its state with all three tables allocated
+//@   ensures result1 == nil ==> result0 != nil && result0.receivers != nil && result0.recvShutdown != nil
+//@   assigns contents(m2.peers)
+//@ contract (*intraProxyManager).ensureStream
+//@   props C08 C09
+//@   requires m.loggers != nil
+//@   storepre receivers: @none_registered_for_the_pair: !$present || $map[$key] == nil
+//@ extern (*intraProxyStreamReceiver).Run@(*intraProxyManager).ensureStream$1(r, ctx, sm, conn)
+//@   assigns *
+//@ contract (*intraProxyManager).ensureStream$1
+//@   props C08 C09
+//@   requires ps != nil && recv != nil && m != nil
+//@   deletepre receivers: @only_own_receiver: $map[$key] == recv
+//@   deletepre recvShutdown: @only_with_own_receiver: ps.receivers[key] == recv || !(key in ps.receivers)
